@@ -10,14 +10,14 @@ import (
 
 // Origin describes where a value is loaded from.
 type Origin struct {
-	Field  *types.Var    // loaded from this struct field
-	Base   ssa.Value     // base object of the field load (may be nil)
-	Const  *ssa.Const    // a constant
-	Call   *types.Func   // result of a call of this function
-	CallV  ssa.Value     // the call value
-	Global *ssa.Global   // loaded from a package-level variable
+	Field  *types.Var     // loaded from this struct field
+	Base   ssa.Value      // base object of the field load (may be nil)
+	Const  *ssa.Const     // a constant
+	Call   *types.Func    // result of a call of this function
+	CallV  ssa.Value      // the call value
+	Global *ssa.Global    // loaded from a package-level variable
 	Param  *ssa.Parameter // unresolved parameter (no callers / depth exhausted)
-	Other  ssa.Value     // anything else
+	Other  ssa.Value      // anything else
 }
 
 func (o Origin) String() string {
